@@ -240,6 +240,12 @@ def check_graph(case, ctx):
                 raise Violation("pass-through-changed-result", f"{op}({o}): {plain[op]!r} unhandled but {got!r} under pass-through handlers")
             if not any(isinstance(q, OPS[op][0]) for q in seen):
                 raise Violation("operation-not-a-request", f"{op}({o}) issued no {OPS[op][0].__name__}")
+            root = spec["root"]
+            if op == "validate" and root["k"] == "ref" and root["name"] in cacheable:
+                # validating a cached dataset consults its cache: that lookup is a request too
+                if not any(isinstance(q, CacheExistsRequest) and ds_name(q.evaluatable) == root["name"] for q in seen):
+                    raise Violation("cache-exists-not-a-request", f"validate({o}) of cached dataset {root['name']} issued no CacheExistsRequest for it")
+                labels.add("validate-cache-lookup-observed")
         labels |= r.labels
     ctx.done(case, nontrivial, labels)
 
@@ -287,6 +293,6 @@ def cases(draw, prof):
 PROFILE = specgen.profile(depth=2, domain_rate=0.01)
 PARTS = [
     Part("reflection", check_reflection, enumerate=enum_reflection, budget={"quick": None, "thorough": None}),
-    Part("graphs", check_graph, strategy=lambda ctx: cases(PROFILE), budget={"quick": 60, "thorough": 800}),
-    Part("substitution", check_substitution, strategy=lambda ctx: cases(PROFILE), budget={"quick": 60, "thorough": 800}),
+    Part("graphs", check_graph, strategy=lambda ctx: cases(PROFILE), budget={"quick": 150, "thorough": 800}),
+    Part("substitution", check_substitution, strategy=lambda ctx: cases(PROFILE), budget={"quick": 150, "thorough": 800}),
 ]
